@@ -57,6 +57,7 @@ impl Config {
         }
 
         add_project(root_project_dir.clone(), &mut projects)?;
+        check_project_names_are_unique(&projects)?;
 
         Ok(Self {
             root_project_dir,
@@ -95,6 +96,27 @@ impl Config {
     pub fn get_project_dirs(&self) -> Vec<PathBuf> {
         self.projects.keys().cloned().collect()
     }
+}
+
+/// Targets are addressed as `project::target`: two projects must not share a name.
+fn check_project_names_are_unique(projects: &HashMap<PathBuf, Project>) -> Result<()> {
+    let mut project_dirs = projects.keys().collect::<Vec<_>>();
+    project_dirs.sort();
+
+    let mut dir_by_name = HashMap::new();
+    for project_dir in project_dirs {
+        let name = &projects[project_dir].name;
+        if let Some(other_dir) = dir_by_name.insert(name, project_dir) {
+            return Err(anyhow!(
+                "Projects {} and {} have the same name: {}",
+                other_dir.display(),
+                project_dir.display(),
+                name.as_deref().unwrap_or("<none>")
+            ));
+        }
+    }
+
+    Ok(())
 }
 
 fn canonicalize_dir(dir: &Path) -> Result<PathBuf> {
